@@ -208,6 +208,37 @@ def Config.exec {R} (env : Env R) (c : Config R) : Ev → Config R
 def Config.run {R} (env : Env R) (c : Config R) (sched : List Ev) : Config R :=
   sched.foldl (Config.exec env) c
 
+/-! ### The action table (the granularity ASSUMPTION, compared with the extracted lock facts)
+
+  Each row: a Go method, a guarded field it touches through its receiver, read/write, and the lock it
+  holds at that access (`Facts.lockTable` is recomputed from the source on every run and must be equal).
+
+  * `cacheGet`  = `RuleStorage.RetrieveRule` reading `cache` under `cacheMu.RLock`
+  * `cachePut`  = `RuleStorage.RetrieveRule` writing `cache` under `cacheMu.Lock`
+  * `listRead`  = `FileRuleList.RetrieveRule`: `File` (Seek + Read) and `buffer` under the list's own mutex
+  * `compile`   = `NetworkRule.preparePattern`: `regex`/`invalid` read and written under the rule's own mutex
+  * `NetworkRule.matchPattern` reads `regex` with no lock AFTER its own call of `preparePattern` returned
+    (unlock/lock of the same mutex orders it after the only write; `regex` is never written again) --
+    part of the model's `comp` action
+  * not query actions: `RuleStorage.GetCacheSize` (diagnostic, unlocked), `FileRuleList.NewScanner`
+    (engine construction), `FileRuleList.Close` (the fault action of C19; not concurrent with queries
+    in the model's histories)
+-/
+def actionTable : List (String × String × String × String) := [
+  ("FileRuleList.Close", "File", "r", "none"),
+  ("FileRuleList.NewScanner", "File", "r", "none"),
+  ("FileRuleList.RetrieveRule", "File", "r", "Lock(recv)"),
+  ("FileRuleList.RetrieveRule", "buffer", "r", "Lock(recv)"),
+  ("NetworkRule.matchPattern", "regex", "r", "none"),
+  ("NetworkRule.preparePattern", "invalid", "r", "Lock(recv)"),
+  ("NetworkRule.preparePattern", "invalid", "w", "Lock(recv)"),
+  ("NetworkRule.preparePattern", "regex", "r", "Lock(recv)"),
+  ("NetworkRule.preparePattern", "regex", "w", "Lock(recv)"),
+  ("RuleStorage.GetCacheSize", "cache", "r", "none"),
+  ("RuleStorage.RetrieveRule", "cache", "r", "RLock(cacheMu)"),
+  ("RuleStorage.RetrieveRule", "cache", "w", "Lock(cacheMu)")
+]
+
 /-! ### The variant WITHOUT the list mutex (non-vacuity of the granularity assumption)
 
   `FileRuleList.RetrieveRule` is `Seek(idx)` then `readLine` on ONE shared file position.  With the
@@ -220,6 +251,7 @@ inductive FPC (R : Type) where
   | seek (idx : Idx)
   | read
   | done (r : Option R)
+  deriving DecidableEq
 
 /-- One action of the unlocked reader. -/
 def fstep {R} (truth : Idx → Option R) (s : FState R) : FPC R → FState R × FPC R
